@@ -215,3 +215,13 @@ Theorem C14_stored_superrun_not_stale :
     exists s, In (data_key hash run s comb dt lin, v) st /\ Permutation s spec.
 Proof. exact @lookup_sound. Qed.
 Print Assumptions C14_stored_superrun_not_stale.
+
+(* any history of define_run / get on one superrun name and one storage directory: when the superrun is found
+   stored under its current definition, it was stored while a definition with the same sub-runs was current
+   (h_gotten = the definitions that were current when a get stored something) *)
+Theorem C14_history_not_stale : forall ops,
+  let s := fold_left h_step ops (mkh [] []) in
+  h_is_stored s = true ->
+  exists spec, In spec (h_gotten (mkh [] []) ops) /\ Permutation spec (h_spec s).
+Proof. exact hist_not_stale. Qed.
+Print Assumptions C14_history_not_stale.
